@@ -32,7 +32,13 @@ K3 == [prolog |-> <<60,33,68,79,67,84,89,80,69,32,97,32,91,60,33,69,78,84,73,84,
 K4 == [prolog |-> <<>>, nodes |-> <<
   RootN, Cm(1, "c"), El(1, "a"), El(3, "b"), Pi(3, "p", "s"), Tx(3, "1"), Pi(1, "p", "") >>]
 
-Docs == <<K1, K2, K3, K4>>
+\* <r><a>t<?p s?>u</a><b x="1">u</b><b>v</b><c><b>u</b><b>v</b></c></r>
+\*   (a PI between two runs of character data; attribute present / absent; children with differing values)
+K5 == [prolog |-> <<>>, nodes |-> <<
+  RootN, El(1, "r"), El(2, "a"), Tx(3, "t"), Pi(3, "p", "s"), Tx(3, "u"), El(2, "b"), At(7, "x", "1"), Tx(7, "u"),
+  El(2, "b"), Tx(10, "v"), El(2, "c"), El(12, "b"), Tx(13, "u"), El(12, "b"), Tx(15, "v") >>]
+
+Docs == <<K1, K2, K3, K4, K5>>
 
 \* ---------------------------------------------------------------------------------------------
 NumL(i)    == [t |-> "num", n |-> OfInt(i)]
@@ -76,7 +82,12 @@ Exprs == <<
                                Bin("=", Fn0("position"), Fn0("last")))>>)>>),
   \* 21  //b[not(c[@y])][last()]           the same inner step inside a function, then a second predicate
   AbsP(<<Dos, Step("child", NameT("b"),
-                   <<Fn1("not", Rel(<<Step("child", NameT("c"), <<Rel(<<AtS("y")>>)>>)>>)), Fn0("last")>>)>>)
+                   <<Fn1("not", Rel(<<Step("child", NameT("c"), <<Rel(<<AtS("y")>>)>>)>>)), Fn0("last")>>)>>),
+  AbsP(<<Dos, Ch("a"), Step("child", TypeT("node"), <<>>)>>),                                     \* 22  //a/node()   (text, PI, text)
+  AbsP(<<Dos, Step("child", NameT("a"), <<Rel(<<Step("child", TypeT("text"), <<NumL(2)>>)>>)>>)>>),   \* 23  //a[text()[2]]
+  AbsP(<<Dos, Step("child", NameT("b"), <<Bin("!=", Rel(<<AtS("x")>>), StrL("1"))>>)>>),            \* 24  //b[@x != '1']   (false without @x)
+  AbsP(<<Dos, Step("child", NameT("c"), <<Bin("!=", Rel(<<Ch("b")>>), StrL("u"))>>)>>),             \* 25  //c[b != 'u']    (some b differs)
+  AbsP(<<Dos, Ch("c"), Step("attribute", [k |-> "name", pre |-> Cp("q"), loc |-> Cp("x")], <<>>)>>) \* 26  //c/@q:x   unbound prefix, empty axis
 >>
 
 \* ---------------------------------------------------------------------------------------------
